@@ -7,6 +7,19 @@ BASE_NOTE = ("Trusted: Coq 8.16.1 kernel (no native_compute; vm_compute only in 
              "(Print Assumptions parsed every run; theorems at R would add the 3 stdlib real axioms); ExtrOcamlBasic extraction with Z/Q/Qc kept as datatypes + a Zarith I/O driver; "
              "the Python correspondence harness and its tolerances; JAX/NumPy primitives are modelled by contracts (rfftn/irfftn = DFT half-spectrum, scan = fold, exp). ")
 CLAIMED = {
+ "C09": dict(text="Theorems (any field, any D, any state): the mean is the zero mode of the transform; every conservation-form linear symbol vanishes at the mean mode; the mean-mode coefficient of "
+                  "conservative convection (multi- and single-channel), mean-fixed gradient norm and Cahn-Hilliard vanishes for every input; hence every ETDRK order 0-4 (stage programs translated "
+                  "from the source) leaves the mean unchanged; every constant equilibrium (lambda u + N(u) = 0) is a fixed point of ETD1/ETD2RK/ETD3RK/ETD4RK for every h.",
+             note="PARTIAL: energy/enstrophy neutrality of the convective terms, the zero mean of the non-conservative single-channel, 2D vorticity and 3D rotational (divergence-free states) forms are "
+                  "not proved (they need the k -> -k antisymmetry / integration by parts over the band); they are decided on the real code by the witness oracle for all listed steppers x orders 1-4 x D x N parity.",
+             technique="Rocq proof (stage-program algebra, list induction; tableaux fixed points) + exact symbol correspondence + conservation oracle on the real code", design="§4 C09"),
+ "C12": dict(text="Theorems: for 0<k<N/2 the 2D injection array equals N^2/2 * (-k s gamma) at stored mode (0,k) and 0 elsewhere, the 3D one N^3/2 * (-/+ i gamma) at (0,+/-k,0) in channel 0 and 0 elsewhere "
+                  "- the transforms of the documented -k(2pi/L)gamma cos and gamma sin (transform of a real harmonic proved from a primitive root); the 2D convection term vanishes identically on "
+                  "the laminar subspace; on it every ETD tableau is u' = E u + h phi1 f and n steps from rest give f (E^n - 1)/lambda; ForcedStepper laws. Injection arrays compared element-wise "
+                  "(exact rationals) for all admissible modes, N parity, several L.",
+             note="The 3D laminar subspace (u x curl u is a gradient, removed by the projection) is not proved; laminar solutions of both Kolmogorov steppers and the generic vorticity stepper are checked "
+                  "against the closed form on the real code for orders 1-4, L != 2 pi, modes above the dealiasing cutoff.",
+             technique="Rocq proof (case analysis on the masks, tableau algebra, induction on n) + exact correspondence of the injection arrays", design="§4 C12"),
  "C05": dict(text="Theorems (any field of characteristic 0 with i^2=-1; every order n, every wavenumber list): the derivative multiplier and gradient-axis placement, Laplace operator of order 2n = "
                   "(-1)^n sum kappa^(2n), gradient inner product of order 2n+1 = i (-1)^n sum v kappa^(2n+1), order 0 = 1, parity guards (translated from the source); the Poisson solver returns "
                   "lam*u = -f where the symbol lam is non-zero and 0 where it vanishes; over a formally real field the order-2 symbol vanishes exactly at the mean mode. Operator arrays, "
